@@ -9,6 +9,7 @@ import Proofs.C14_Collapse
 import Proofs.C14_Para
 import Proofs.C14_Table
 import Proofs.C14_Doc
+import Proofs.Pins
 namespace Mammoth
 
 /-- `strip_empty` removes exactly the nodes without content (recursively): a node survives iff it
@@ -510,5 +511,12 @@ example : (c14_heads { c14_cfgDoc with comments := c14_doc.comments } c14_doc.ch
 example : ((convertDoc c14_cfgDoc c14_doc).toOption.map fun r => collapse (stripEmpty r.nodes)) =
     some [.elem (pathElem S!"p" true) [.text S!"a"], .elem (pathElem S!"table" true) [.forceWrite],
           .elem (pathElem S!"p" true) [cel S!"a" [(S!"id", S!"b")] [.forceWrite]]] := by rfl
+
+/-- The tables of the library that this property's theorems consume (regenerated from /repo's source on this run) still have the
+    content the model was validated against: the void tag names.  An edit of one of them in the library changes model and code
+    alike; it is this theorem that then no longer checks (`Proofs/Pins.lean`). -/
+theorem C14_tables_as_validated :
+    (Generated.voidTagNames = pin_voidTagNames) :=
+  pins_voidTagNames
 
 end Mammoth
